@@ -81,11 +81,16 @@ func init() {
 				}
 			}
 			seen := 0
+			eager := r.Intn(3) == 0
 			known := map[string]int{} // what workers believe: task id -> counter from the last message
 			steps := 25 + r.Intn(40)
 			for i := 0; i < steps; i++ {
 				for _, d := range parseDispatched(s, seen) {
 					known[d.Id] = d.Counter
+					if eager {
+						// a push receiver claiming from inside its handler: the claim races the kernel's own bookkeeping of the hand-off
+						s.Submit("eager", reqClaim(d.Id, d.Counter, pick(r, procs...), pick(r, 1, 5, 50)))
+					}
 				}
 				seen = len(s.sent)
 				ids := make([]string, 0, len(known))
@@ -160,6 +165,32 @@ func (c *Ctx) checkMessageClaims(s *Sim) {
 			continue
 		}
 		st := o.Status()
+		if st == 40305 || st == 40306 || st == 40307 || st == 40308 || st == 40403 {
+			// refused although it used exactly what a delivered message said: only right if the task was claimed,
+			// finished or re-initialised (counter moved on) at some moment between the hand-off and the reply
+			rq := o.Req.ClaimTask
+			for _, sm := range s.sent {
+				if sm.TaskId != rq.Id || sm.Counter != rq.Counter || sm.Ev >= o.CallEv || sm.Plugin == "" || sm.Outcome != "success" || sm.Type == "notify" {
+					continue
+				}
+				hist := s.mon.taskHist[rq.Id]
+				excuse := len(hist) == 0
+				for i, v := range hist {
+					if v.ev > o.RetEv {
+						break
+					}
+					inEffect := v.ev >= sm.Ev || i == len(hist)-1 || hist[i+1].ev > sm.Ev
+					if inEffect && (v.counter != rq.Counter || (v.state != 1 && v.state != 2)) {
+						excuse = true
+					}
+				}
+				s.mon.hit("dispatch.refused-message-claim-judged")
+				if !excuse {
+					s.mon.violate("C08", "dispatch:message-claim-refused", fmt.Sprintf("op%d %s used the id and counter of the message handed off at event %d and was refused with %d although the task stayed dispatchable (init/enqueued, counter %d) until the reply", o.Idx, o.Req, sm.Ev, st, rq.Counter))
+				}
+				break
+			}
+		}
 		if st == 40403 {
 			// "not found" for an id that a message named is never right: tasks are not deleted
 			for _, sm := range s.sent {
